@@ -21,6 +21,14 @@
 //! `unnest_columns` and SQL `unnest()` deliberately differ on NULL lists (preserve_nulls true vs false): lists are only
 //! built with `make_array(e1, e2[, e3])`, which is never NULL.
 //!
+//! Known findings (genuine, outcome-keyed signatures): `offset-only-limit-under-sort` — EnsureRequirements pushes a SortExec below
+//! GlobalLimitExec(skip=n, fetch=None) (plain SQL repro: SELECT id FROM (SELECT * FROM t0 ORDER BY id DESC OFFSET 1) ORDER BY id
+//! ASC returns 1,2 for ids 0,1,2); `window-builder-default-frame` — `ExprFunctionExt::order_by(..).build()` without a frame
+//! builds ROWS UNBOUNDED PRECEDING..CURRENT ROW (it passes "has an ORDER BY" where WindowFrame::new expects "ordering is
+//! strict"), while SQL text without a frame means RANGE: peers (rows with equal keys) get different running aggregates.
+//! Robustness note: `DataFrame::window` with a non-window expression (a CAST around row_number()) panics in the physical planner
+//! (`unreachable!()`); the harness only passes bare window functions there.
+//!
 //! Non-trivial: chain length ≥ 3 with at least one of {join_on, union_by_name, distinct_on, unnest, window}.
 //!
 //! Sensitivity probes: see the end of this header (filled in after running them with mutrun).
@@ -723,9 +731,15 @@ pub async fn build_df(ctx: &SessionContext, case: &Case) -> Result<DataFrame, Df
             }
             Op::Window { item } => {
                 // `DataFrame::window` takes bare (aliased) window functions only: no cast around ranking functions here
-                // (UInt64 there, CAST(.. AS BIGINT) in the SQL text; both read back as the same integer)
                 let Expr::Win(w) = &item.expr else { return Err(herr("window op without a window expression".into())) };
-                df.window(vec![dfexpr::win_raw(w).map_err(herr)?.0.alias(item.name.as_str())])
+                let (raw, to_int) = dfexpr::win_raw(w).map_err(herr)?;
+                let d = df.window(vec![raw.alias(item.name.as_str())]);
+                if to_int {
+                    // ranking functions are UInt64; the SQL text says CAST(.. AS BIGINT): same type on both sides
+                    d.and_then(|d| d.with_column(&item.name, datafusion::logical_expr::cast(dfexpr::column(None, &item.name), datafusion::arrow::datatypes::DataType::Int64)))
+                } else {
+                    d
+                }
             }
             Op::Alias { name } => df.alias(name),
         }
@@ -791,7 +805,8 @@ impl Property for C48 {
         "c48"
     }
     fn strategy(&self, tier: Tier) -> BoxedStrategy<Case> {
-        let cfg = GenConfig::standard(2, tier.pick(8, 16), 0);
+        let mut cfg = GenConfig::standard(2, tier.pick(8, 16), 0);
+        cfg.min_rows = 2;
         let max_ops = tier.pick(6usize, 8);
         (refsql::tables_strategy(&cfg), prop::collection::vec(any::<u8>(), 0..260), 1usize..=3, 1usize..=3)
             .prop_map(move |(tables, tape, mem_partitions, target_partitions)| Case { tables, ops: build_ops(tape, max_ops), mem_partitions, target_partitions })
@@ -812,7 +827,48 @@ impl Property for C48 {
             "both sides run on the same engine: defects shared by both planners' common parts are invisible here (C01 covers the SQL side against an independent reference)".into(),
         ]
     }
+    /// outcome-keyed: the signature of the observed failure (None when the case does not fail)
+    fn known_signature(&self, case: &Case) -> Option<String> {
+        evaluate(case).1
+    }
     fn run(&self, case: &Case) -> CaseResult {
+        evaluate(case).0
+    }
+}
+
+thread_local! {
+    static LAST: std::cell::RefCell<Option<(u64, CaseResult, Option<String>)>> = const { std::cell::RefCell::new(None) };
+}
+
+fn evaluate(case: &Case) -> (CaseResult, Option<String>) {
+    let key = fnv1a(&serde_json::to_vec(case).unwrap_or_default());
+    if let Some(hit) = LAST.with(|c| c.borrow().as_ref().filter(|(k, _, _)| *k == key).map(|(_, r, s)| (r.clone(), s.clone()))) {
+        return hit;
+    }
+    let r = evaluate_uncached(case);
+    let sig = if r.is_violation() { failure_signature(case, &r) } else { None };
+    LAST.with(|c| *c.borrow_mut() = Some((key, r.clone(), sig.clone())));
+    (r, sig)
+}
+
+/// shape of the known finding `offset-only-limit-under-sort`: rows differ and a skip-only limit sits under a later sort
+fn failure_signature(case: &Case, r: &CaseResult) -> Option<String> {
+    let Outcome::Violation(m) = &r.outcome else { return None };
+    if !m.starts_with("DataFrame rows differ") {
+        return None;
+    }
+    if let Some(at) = case.ops.iter().position(|o| matches!(o, Op::SortLimit { skip, fetch: None, .. } if *skip > 0)) {
+        if case.ops[at + 1..].iter().any(|o| matches!(o, Op::Sort { .. } | Op::SortLimit { .. } | Op::DistinctOn { .. })) {
+            return Some("offset-only-limit-under-sort".to_string());
+        }
+    }
+    // an ordered aggregate window function without an explicit frame: the expression builder defaults to ROWS, SQL to RANGE
+    let default_frame = |e: &Expr| matches!(e, Expr::Win(w) if matches!(w.f, WinFunc::Agg(_)) && !w.order_by.is_empty() && w.frame.is_none());
+    case.ops.iter().any(|o| matches!(o, Op::Window { item } | Op::WithColumn { item } if default_frame(&item.expr))).then(|| "window-builder-default-frame".to_string())
+}
+
+fn evaluate_uncached(case: &Case) -> CaseResult {
+    {
         if case.tables.len() != 2 || case.tables[0].name != "t0" || case.tables[1].name != "t1" || case.ops.len() > 40 {
             return CaseResult::discard("malformed case");
         }
